@@ -194,6 +194,7 @@ def r5_binify_guards(ctx):
         S = XSem(ctx, fb, facts=Facts(truths=[(Sb0.E(pb[4]), ens)]), inline=binl, consts=consts)
         mat = sym_of(S.ret())
         cells = S.cells(mat) if mat else []
+        _bound(ctx, S, f"_binify ({'guarded' if ens else 'unguarded'} arm)", fb)
         if mat is None or len(cells) != 1:
             ctx.error(f"_binify ({'guarded' if ens else 'unguarded'} arm): one accumulation into the returned table", fb, short(S.ret()))
             continue
@@ -208,13 +209,20 @@ def r5_binify_guards(ctx):
             for pos, x in enumerate(ix):
                 b, k = peel(x)
                 dg = None
-                try:
-                    dg = app(need(b) + 1, "call:np.digitize") if not is_unknown(b) else None
-                except Unsupported:
-                    dg = None
+                dgs = apps(b, "call:np.digitize") if not is_unknown(b) else []
+                off = None
+                if len(dgs) == 1:
+                    try:
+                        off = const_of(need(b) - dgs[0][2])
+                    except Unsupported:
+                        off = None
+                    dg = ("call:np.digitize", dgs[0][1]) if off is not None else None
                 if dg is None or len(k) != 1:
                     bad = f"index {pos} of the accumulation is not digitize(...)[k] - 1: {short(x)}"
                     shape = False
+                    break
+                if off != -1:
+                    bad = f"index {pos} of the accumulation is digitize(...) {'+' if off >= 0 else '-'} {abs(off)} (digitize returns i with bins[i-1] < x <= bins[i], so the bin index is i - 1)"
                     break
                 pos_a, kw_a = call_args(dg)
                 a = place(pos_a, kw_a, ["x", "bins", "right"])
@@ -224,6 +232,8 @@ def r5_binify_guards(ctx):
             if bad:
                 break
             loops = cell[4]["loops"]
+            if bad:
+                break
             ok = len(got) == 2 and got[0][0] == 1 and got[1][0] == 0 and all(same(g[2], Sb0.E(pb[3])) for g in got) \
                 and got[0][1] in pb[1:3] and got[1][1] in pb[1:3] and got[0][1] != got[1][1] \
                 and len(loops) == 1 and all(sym_of(g[3]) == loops[0][0] for g in got) and same(loops[0][1], Sb0.E(f"len({pb[0]})"))
@@ -314,6 +324,7 @@ def r5_binify_guards(ctx):
         gb = S.calls("getbins")
         bn = S.calls("_binify")
         res[chk] = (S, gb, bn)
+        _bound(ctx, S, f"binify (check_bounds={chk})", bf)
     S, gb, bn = res[True]
     G = {}
     bad = None
@@ -368,6 +379,7 @@ def r5_binify_guards(ctx):
     sc = ctx.src.func(CYC, "sigcount")
     Ss = XSem(ctx, sc, consts=consts, inline={k: v for k, v in table.items() if k not in ("sigcount", "binify", "rainflow", "findap", "getbins", "_binify")})
     cb = Ss.calls("binify")
+    _bound(ctx, Ss, "sigcount", sc)
     ok = len(cb) == 1
     if not cb:
         ctx.error("sigcount never overrides check_bounds", sc, "no call of binify")
@@ -1057,8 +1069,10 @@ def r1_exponents(ctx):
         good = []
         for x in roots:
             try:
-                w = x * x / Sv.E("np.pi / 2 * Q")
-                good.append(not depends(w, "Q") and not depends(w, "pi") and depends(x, "Q"))
+                w = x * x / Sv.E("np.pi * Q")
+                one = w.d.is_const() and len(w.n.t) == 1
+                coef = (list(w.n.t.values())[0] / w.d.const_value()) if one else None
+                good.append(one and coef == Fraction(1, 2) and not depends(w, "Q") and not depends(w, "pi") and depends(x, "Q"))
             except Unsupported:
                 good.append(False)
         ok = bool(good) and all(good)
@@ -1150,11 +1164,11 @@ def _under(v, facts):
 
 
 RULES = [
-    ("C10-R1", r1_exponents, 26),
-    ("C10-R3", r3_telescoping, 8),
-    ("C10-R5", r5_binify_guards, 21),
-    ("C10-R6", r6_tolerance_strictness, 12),
-    ("C10-R7", r7_amplitude_scaling, 13),
+    ("C10-R1", r1_exponents, 27),
+    ("C10-R3", r3_telescoping, 9),
+    ("C10-R5", r5_binify_guards, 28),
+    ("C10-R6", r6_tolerance_strictness, 15),
+    ("C10-R7", r7_amplitude_scaling, 14),
 ]
 LEVEL = "other"
 EXPLANATION = ("Static, decided on values (functions evaluated on symbols, helpers followed, every branch visited with its guard): binify's dropped index guard is "
